@@ -8,6 +8,8 @@ repo = os.environ.get("VERIF_REPO", "/repo")
 out = {}
 for rel in L.FILES:
     mod = ast.parse(open(os.path.join(repo, rel), encoding="utf-8").read())
+    from xpverif import common, normalise
+    mod = normalise.normalise(mod, *common._normal_facts())
     out[rel] = {q: [list(x) for x in L.signatures(fn)] for q, fn in L.functions(mod) if L.signatures(fn)}
 json.dump(out, open(L.TABLE, "w"), indent=0)
 print({k: len(v) for k, v in out.items()})
